@@ -15,6 +15,8 @@
               on open; substate value > max_substate_value_size on set; the track byte counter follows
               the IOAccess deltas: canonical key (node id 30 + partition 1 + key) added when the entry
               is first seen, value size replaced on update; refused when the counter is > max
+     iwrite / swrite  (index / sorted-index insert of a stored object: kernel_set_substate) key, then value, then track
+     fwrite   (write of a field of the stored object: write_substate) value size, track counter
      alloc    (a new heap object with one field) field substate > max_substate_value_size, then heap
               byte counter > max_heap_substate_total_bytes; the object is dropped when its frame returns
 
@@ -35,6 +37,10 @@ LogOp(n) == Op("log", n, 0)
 PanicOp(n) == Op("panic", n, 0)
 WriteOp(k, n) == Op("write", n, k)
 AllocOp(n) == Op("alloc", n, 0)
+IWriteOp(k, n) == Op("iwrite", n, k)     \* index insert (kernel_set_substate)
+SWriteOp(k, n) == Op("swrite", n, k)     \* sorted-index insert (kernel_set_substate; the key counts 2 + k)
+FWriteOp(n) == Op("fwrite", n, 0)        \* write of a field of the stored object (write_substate)
+SetKeyLen(o) == IF o.op = "swrite" THEN o.k + 2 ELSE o.k
 
 (* the configuration admits the environment: the system's own calls, keys, values, events fit *)
 Admits(c, env) ==
@@ -45,7 +51,7 @@ Admits(c, env) ==
    objects; calls: 0-based program index of the call op that opened each nested frame *)
 Start(env) == [depth |-> 1, events |-> env.events, logs |-> 0, track |-> env.trackRun,
                frames |-> <<0>>, calls |-> <<>>, live |-> 0, used |-> {}, fail |-> "", failAt |-> -1,
-               done |-> FALSE]
+               fsize |-> env.fieldCal, done |-> FALSE]
 
 Fail(s, cls, at) == [s EXCEPT !.fail = cls, !.failAt = at]
 HeapOf(depth, live, env) == env.heapRun + (depth - 1) * env.heapFrame + live
@@ -98,6 +104,21 @@ Exec(s, o, i, c, env) ==
          ELSE IF o.n > c.value THEN Fail(s, "ValueSize", i)
          ELSE IF t + KeyCost(o.k, env) + o.n > c.track THEN Fail(s, "TrackBytes", i)
          ELSE [s EXCEPT !.track = t + KeyCost(o.k, env) + o.n, !.used = @ \cup {"write"}]
+    [] o.op \in {"iwrite", "swrite"} ->
+         \* actor_(sorted_)index_insert -> kernel_set_substate: on_set_substate checks the key, then the value,
+         \* then the track counter takes the canonical key and the value of the new entry
+         LET t == s.track + FirstUse(s, o.op, env) IN
+         IF t > c.track THEN Fail(s, "TrackBytes", i)
+         ELSE IF SetKeyLen(o) > c.key THEN Fail(s, "KeySize", i)
+         ELSE IF o.n > c.value THEN Fail(s, "ValueSize", i)
+         ELSE IF t + KeyCost(SetKeyLen(o), env) + o.n > c.track THEN Fail(s, "TrackBytes", i)
+         ELSE [s EXCEPT !.track = t + KeyCost(SetKeyLen(o), env) + o.n, !.used = @ \cup {o.op}]
+    [] o.op = "fwrite" ->
+         \* the first-use cost is measured with a field value of env.fieldCal bytes; afterwards the size is replaced
+         LET t == s.track + FirstUse(s, "fwrite", env) + (o.n - s.fsize) IN
+         IF o.n > c.value THEN Fail(s, "ValueSize", i)
+         ELSE IF t > c.track THEN Fail(s, "TrackBytes", i)
+         ELSE [s EXCEPT !.track = t, !.fsize = o.n, !.used = @ \cup {"fwrite"}]
     [] o.op = "alloc" ->
          IF s.track + FirstUse(s, "alloc", env) > c.track THEN Fail(s, "TrackBytes", i)
          ELSE IF o.n > c.value THEN Fail(s, "ValueSize", i)
@@ -118,6 +139,9 @@ Exceeds(s, o, c, env) ==
                               + (IF o.n > env.kvDefault THEN o.n ELSE env.kvDefault) > c.track
     [] o.op = "alloc" -> o.n > c.value \/ HeapOf(s.depth, s.live + ObjCost(o.n, env), env) > c.heap
                          \/ s.track + FirstUse(s, "alloc", env) > c.track
+    [] o.op \in {"iwrite", "swrite"} -> SetKeyLen(o) > c.key \/ o.n > c.value
+                         \/ s.track + FirstUse(s, o.op, env) + KeyCost(SetKeyLen(o), env) + o.n > c.track
+    [] o.op = "fwrite" -> o.n > c.value \/ s.track + FirstUse(s, "fwrite", env) + (o.n - s.fsize) > c.track
 
 (* the limit named by an error class really is the one exceeded *)
 ClassMatches(cls, s, o, c, env) ==
@@ -128,9 +152,9 @@ ClassMatches(cls, s, o, c, env) ==
     [] cls = "TooManyLogs"   -> o.op = "log" /\ s.logs + 1 > c.logs
     [] cls = "LogSize"       -> o.op = "log" /\ o.n > c.log
     [] cls = "PanicSize"     -> o.op = "panic" /\ o.n > c.panic
-    [] cls = "KeySize"       -> o.op = "write" /\ o.k > c.key
-    [] cls = "ValueSize"     -> o.op \in {"write", "alloc"} /\ o.n > c.value
-    [] cls = "TrackBytes"    -> o.op \in {"write", "emit", "ret", "alloc"}
+    [] cls = "KeySize"       -> (o.op = "write" /\ o.k > c.key) \/ (o.op \in {"iwrite", "swrite"} /\ SetKeyLen(o) > c.key)
+    [] cls = "ValueSize"     -> o.op \in {"write", "alloc", "iwrite", "swrite", "fwrite"} /\ o.n > c.value
+    [] cls = "TrackBytes"    -> o.op \in {"write", "emit", "ret", "alloc", "iwrite", "swrite", "fwrite"}
     [] cls = "HeapBytes"     -> o.op \in {"alloc", "call"}
     [] OTHER -> FALSE
 
